@@ -169,6 +169,15 @@ Layout(b) ==
                         Rep(<<Const("description_length", <<0, 0, 0, 2>>), U("roll_distance", 2)>>)>>)
     [] b = "sgpd-v2-len0" -> L("sgpd", TRUE, {2}, {}, <<Const("grouping_type", <<114, 111, 108, 108>>), Const("default_length", <<0, 0, 0, 0>>), U("default_group_description_index", 4), Cnt("entry_count", 4),
                         Rep(<<Const("description_length", <<0, 0, 0, 2>>), U("roll_distance", 2)>>)>>)
+    \* alst (14496-12 10.4): roll_count offsets, then optional (num_output_samples, num_total_samples) pairs up to the description length;
+    \* "-odd": roll_count promises more offsets than the description length holds
+    [] b = "sgpd-alst" -> L("sgpd", TRUE, {1}, {}, <<Const("grouping_type", <<97, 108, 115, 116>>), Const("default_length", <<0, 0, 0, 12>>), Cnt("entry_count", 4),
+                        Rep(<<Const("roll_count", <<0, 2>>), U("first_output_sample", 2), U("sample_offset_0", 4), U("sample_offset_1", 4)>>)>>)
+    [] b = "sgpd-alst-opt" -> L("sgpd", TRUE, {1}, {}, <<Const("grouping_type", <<97, 108, 115, 116>>), Const("default_length", <<0, 0, 0, 16>>), Cnt("entry_count", 4),
+                        Rep(<<Const("roll_count", <<0, 1>>), U("first_output_sample", 2), U("sample_offset_0", 4), U("num_output_samples_0", 2), U("num_total_samples_0", 2),
+                              U("num_output_samples_1", 2), U("num_total_samples_1", 2)>>)>>)
+    [] b = "sgpd-alst-odd" -> L("sgpd", TRUE, {1}, {}, <<Const("grouping_type", <<97, 108, 115, 116>>), Const("default_length", <<0, 0, 0, 8>>), Cnt("entry_count", 4),
+                        Rep(<<Const("roll_count", <<0, 2>>), U("first_output_sample", 2), U("sample_offset_0", 4)>>)>>)
     [] b = "sgpd-unknown" -> L("sgpd", TRUE, {1}, {}, <<Const("grouping_type", <<113, 113, 113, 113>>), Const("default_length", <<0, 0, 0, 3>>), Cnt("entry_count", 4), Rep(<<U("opaque", 3)>>)>>)
     [] b = "senc" -> L("senc", TRUE, {0}, {2}, <<Cnt("sample_count", 4), Rep(<<Fix("InitializationVector", 8), If(Flag(2), <<Const("subsample_count", <<0, 1>>), U("BytesOfClearData", 2), U("BytesOfProtectedData", 4)>>)>>)>>)
     [] b = "stpp" -> L("stpp", FALSE, {0}, {}, <<Res(Zeros(6)), U("data_reference_index", 2), Str0("namespace"), Str0("schema_location"), Str0("auxiliary_mime_types"), Kids(<<"btrt">>)>>)
